@@ -82,6 +82,12 @@ def acks(cfg):
                         during=[dict(x, ns=x.get('ns', ns)) if
                                 x['act'] == 'RxAck' else x for x in d]))
         A.append(mk('RxDisconnect', ns=ns))
+        # (only where the second event has a handler as well: both suspend
+        # alike and the answers keep the order of arrival; an event nobody
+        # handles is answered at once and overtakes - not modelled)
+        if cfg.get('pairs', True) and ns in cfg['ns_h']:
+            A.append(mk('RxAttThenEvent', b='b1', ns=ns, id=0, ev='e_v',
+                        args=['v1']))
     A.append(mk('RxFrame', kind='att', b='b1'))
     A.append(mk('RxFrame', kind='att', b='b2'))
     A.append(mk('Disconnect'))
@@ -109,6 +115,10 @@ def enabled(cfg):
         if act == 'RxFrame':
             return eio and (a['kind'] != 'hdr' or (
                 a['ns'] in s['srvAcc'] and not has_bin))
+        if act == 'RxAttThenEvent':
+            p = s['binbuf'].get('p')
+            return eio and a['ns'] in s['srvAcc'] and p is not None and \
+                len(p['atts']) + 1 == p['owed']
         if act in ('TransportError', 'ServerClose'):
             return eio
         if act == 'Emit':
@@ -143,7 +153,8 @@ _AK = dict(ns_h=['/', '/a'], ns_all=['/', '/a'], connects=[['/', '/a']],
                    [{'act': 'RxAck', 'id': 2, 'args': ['v1', 'b1']}],
                    [{'act': 'RxAck', 'id': 9, 'args': ['v1']}],
                    [{'act': 'TransportError'}]],
-           alpha='acks')
+           # (AsyncClient: handlers are coroutines that really suspend)
+           coro=True, alpha='acks')
 CONFIGS['cacks_fn'] = dict(_AK, hkind='fn')
 CONFIGS['cacks_class'] = dict(_AK, hkind='class')
 CONFIGS['cacks_quick'] = dict(_AK, hkind='fn', ns_h=['/'],
